@@ -273,7 +273,9 @@ class IncludeReader(Reader):
                 source = value.origin.input_location
                 for line in value.lines:
                     logger.debug(f"Adding include '{line}' from {source.interactive_identifier}")
-                    orchestrator.add_load_item(LoadItem(specification=line, source=source))
+                    # a workbook cell may hold a number: a load specification is always text
+                    spec = line if isinstance(line, str) else str(line)
+                    orchestrator.add_load_item(LoadItem(specification=spec, source=source))
             else:
                 yield block_type, value
 
